@@ -64,6 +64,9 @@ func c05(c *core.Ctx) {
 	c.Explain("C05 (session lifecycle): decided statically — R1 the take-over protocol of lockDuplicatedID: the connection waited for is the one registered under the client id, it is told to stop (setError, Close) before the wait, the wait happens with the server lock released, and after the wait every path re-checks the session/online table before returning; R2 the tables of online clients, offline deadlines, queues and unack stores are written only by their confirmed writers, and the online-client entry is installed only when registration succeeded; R3 a session is resumed only without Clean Start and only when not expired, the CONNACK's Session Present is register's result; R4 the expiry decision is based on the deadline recorded when the last connection ended (offlineClients), that deadline is 'disconnect time + expiry interval', and every successful registration clears it; R6 a session is stored at disconnect iff its expiry interval is non-zero and it was not force-removed, and a Session Expiry Interval carried by DISCONNECT overrides the stored one whatever its value (including 0).")
 	c.NotDecided("expiry arithmetic over real time; interleavings of simultaneous CONNECTs beyond the protocol shape and the lock discipline (C15)")
 	p := c.P
+	offlineDeadlineBase(c, "C05.R4")
+	_ = p
+
 	fl := ssax.NewFlow()
 
 	// ---- R1
@@ -281,6 +284,42 @@ func c05(c *core.Ctx) {
 				fromDeadline = true
 			}
 		}
+		// when a deadline is recorded it decides alone: the comparison with the deadline may only depend on
+		// the deadline being there, not on what the interval measured from CONNECT says
+		ssax.Instrs(rc, false, func(_ *ssa.Function, in ssa.Instruction) {
+			call, ok := in.(*ssa.Call)
+			if !ok {
+				return
+			}
+			n := ssax.ResolveCallee(&call.Call).Name
+			if n != "(time.Time).After" && n != "(time.Time).Before" {
+				return
+			}
+			var lk *ssa.Lookup
+			for _, a := range call.Call.Args {
+				for v := range ssax.Backward(a) {
+					if l, isL := v.(*ssa.Lookup); isL && ssax.AnyIn(ssax.Backward(l.X), ssax.LoadOfField("server.server.offlineClients")) {
+						lk = l
+					}
+				}
+			}
+			if lk == nil {
+				return
+			}
+			extra := ""
+			for _, g := range ssax.Guards(call) {
+				if !g.If.Block().Dominates(lk.Block()) || g.If.Block() == lk.Block() {
+					// a test made after the lookup: only "the deadline exists" is acceptable
+					if ex, isEx := g.Cond.(*ssa.Extract); isEx && ex.Tuple == ssa.Value(lk) {
+						continue
+					}
+					if ssax.AnyIn(ssax.Backward(g.Cond), func(v ssa.Value) bool { return isCallTo(v, "(*gmqtt.Session).IsExpired") }) {
+						extra = "Session.IsExpired"
+					}
+				}
+			}
+			c.Check(extra == "", "C05.R4", "registerClient|deadline-decides-alone", ipos(c, call), "a recorded deadline decides alone", "the deadline recorded at the end of the last connection is consulted only when "+extra+" (expiry measured from CONNECT) says the session is still alive: a session whose last connection outlasted its interval is lost on an immediate reconnect")
+		})
 		c.Check(fromDeadline, "C05.R4", "registerClient|expiry-base", ipos(c, st), "expiry measured from the end of the last connection (offlineClients deadline)", "the resume decision does not consult the deadline recorded when the last connection ended: the expiry interval is measured from CONNECT, so a client that stayed connected longer than the interval loses its session on an immediate reconnect")
 	}
 	// CONNACK session present = register result
@@ -430,9 +469,54 @@ func c05(c *core.Ctx) {
 			}
 		}
 		c.Check(!valueGuard, "C05.R6", fmt.Sprintf("unregisterClient|disconnect-expiry-override#%d", nOv), ipos(c, st), "a Session Expiry Interval sent with DISCONNECT always overrides", "the Session Expiry Interval carried by DISCONNECT is applied only for some values (e.g. non-zero): an explicit 0 does not end the session")
+		// a DISCONNECT without the property leaves the interval as it is: the default of the conversion is the
+		// current value of the same field, or the store is skipped when the property is absent
+		absentKeeps := false
+		if call, ok := st.Val.(*ssa.Call); ok && isCallTo(call, "server.convertUint32") {
+			if ssax.AnyIn(ssax.Backward(rawArgs(call)[1]), ssax.LoadOfField("gmqtt.Session.ExpiryInterval")) {
+				absentKeeps = true
+			}
+		} else {
+			absentKeeps = true // another idiom (e.g. "if p != nil { x = *p }"): the nil test is accepted above
+			for v := range ssax.Backward(st.Val) {
+				if cl, isCall := v.(*ssa.Call); isCall && isCallTo(cl, "server.convertUint32") && !ssax.AnyIn(ssax.Backward(rawArgs(cl)[1]), ssax.LoadOfField("gmqtt.Session.ExpiryInterval")) {
+					absentKeeps = false
+				}
+			}
+		}
+		c.Check(absentKeeps, "C05.R6", fmt.Sprintf("unregisterClient|disconnect-expiry-absent-keeps#%d", nOv), ipos(c, st), "without the property the interval is unchanged", "a DISCONNECT that carries no Session Expiry Interval replaces the session's interval by a constant instead of leaving it unchanged: an ordinary DISCONNECT ends a session that was to be kept")
 	}
 	c.Check(nOv >= 1, "C05.R6", "unregisterClient|disconnect-expiry", fpos(c, ur), "DISCONNECT can update the expiry", "the Session Expiry Interval of DISCONNECT is never applied")
 	_ = fl
 }
 
 func instrValue(v ssa.Value) ssa.Value { return v }
+
+// offlineDeadlineBase: every deadline written into srv.offlineClients (at disconnect and when the stored sessions
+// are loaded at start-up) is "now + Session Expiry Interval": the interval runs from the end of the connection
+// (or from the restart), never from Session.ConnectedAt.
+func offlineDeadlineBase(c *core.Ctx, rule string) {
+	p := c.P
+	n := 0
+	for _, fn := range p.FuncsOfPkg("server") {
+		if p.IsMockOrGenerated(fn) {
+			continue
+		}
+		ssax.Instrs(fn, false, func(f *ssa.Function, in ssa.Instruction) {
+			mu, ok := in.(*ssa.MapUpdate)
+			if !ok || !ssax.AnyIn(ssax.Backward(mu.Map), ssax.LoadOfField("server.server.offlineClients")) {
+				return
+			}
+			n++
+			follow := func(call *ssa.Call) bool {
+				sc := call.Call.StaticCallee()
+				return sc != nil && sc.Pkg != nil && sc.Pkg.Pkg.Path() == "time"
+			}
+			set := ssax.BackwardOpt(mu.Value, follow)
+			fromNow := ssax.AnyIn(set, func(v ssa.Value) bool { return isCallTo(v, "time.Now") })
+			fromConnected := ssax.AnyIn(set, ssax.LoadOfField("gmqtt.Session.ConnectedAt"))
+			c.Check(fromNow && !fromConnected, rule, fmt.Sprintf("offlineClients|deadline-from-now|%s#%d", fname(f), n), ipos(c, in), "deadline = now + interval", "a session's offline deadline is not computed from the current time (e.g. from Session.ConnectedAt): a session whose connection outlasted its expiry interval is treated as expired the moment it goes offline or the broker restarts")
+		})
+	}
+	c.Check(n >= 2, rule, "offlineClients|deadline-sites", "-", "deadline recorded at disconnect and at start-up", "the offline deadline is no longer recorded both at disconnect and when stored sessions are loaded")
+}
